@@ -6,6 +6,7 @@ All statements are for an ARBITRARY prime `p` and arbitrary (reduced) values: no
 Part 2 (below): extension and binary fields, model `MpycV.ExtF`.
 -/
 import MpycV.Lemmas.PrimeF
+import MpycV.Lemmas.ExtF
 
 namespace MpycV.C20
 open MpycV.PrimeF
@@ -296,5 +297,226 @@ theorem hash_bool (a b : Nat) :
   simp [eq, hashKey, PrimeF.toBool]
 
 example : eq 7 3 (.int 10) = true ∧ eq 7 3 (.int 4) = false ∧ PrimeF.toBool 0 = false := by decide
+
+/-! # Part 2: extension fields GF(p^d), model `MpycV.ExtF` ≙ `ExtensionFieldElement`
+
+`IsModulus p m`: the modulus is a well-formed polynomial, irreducible over GF(p) (what `xGF` checks, linked to the
+executable test by `ExtF.isModulus_of_check` and C24).  `Red p m a`: class invariant of a value (well-formed
+coefficient list of length < len m).  All statements: every prime p, every admissible modulus, all values. -/
+
+section ext
+open MpycV.ExtF MpycV.GFpX
+
+variable {p : ℕ} [hpf : Fact p.Prime] {m : Poly}
+
+/-- ★ every operator returns a class-invariant value, for arbitrary well-formed (also unreduced) operands -/
+theorem ext_reduced (hm : IsModulus p m) {a o : Poly} (ha : WF p a) (ho : WF p o) (x : ℤ) :
+    Red p m (ExtF.add p m a o) ∧ Red p m (ExtF.radd p m a o) ∧ Red p m (ExtF.iadd p m a o) ∧
+    Red p m (ExtF.sub p m a o) ∧ Red p m (ExtF.rsub p m a o) ∧ Red p m (ExtF.isub p m a o) ∧
+    Red p m (ExtF.mul p m a o) ∧ Red p m (ExtF.rmul p m a o) ∧ Red p m (ExtF.imul p m a o) ∧
+    Red p m (ExtF.neg p m a) ∧ Red p m (ExtF.pos p m a) ∧ Red p m (ExtF.ofInt p m x) ∧
+    (∀ r, ExtF.truediv p m a o = .ok r ∨ ExtF.reciprocal p m a = .ok r ∨ (∃ n : ℤ, ExtF.pow p m a n = .ok r) →
+      Red p m r) := by
+  refine ⟨red_add hm ha ho, red_add hm ha ho, red_add hm ha ho, red_sub hm ha ho, red_sub hm ho ha,
+    red_sub hm ha ho, red_mul hm ha ho, red_mul hm ha ho, red_mul hm ha ho, red_neg hm ha, red_mk hm ha,
+    red_ofInt hm x, ?_⟩
+  intro r hr
+  rcases hr with h | h | ⟨n, h⟩
+  · by_cases h0 : φ p m o = 0
+    · rw [(truediv_spec hm ha ho).1 h0] at h; cases h
+    · obtain ⟨q, e, rq, _⟩ := (truediv_spec hm ha ho).2 h0
+      rw [e] at h; cases h; exact rq
+  · by_cases h0 : φ p m a = 0
+    · rw [(reciprocal_spec hm ha).1 h0] at h; cases h
+    · obtain ⟨q, e, rq, _⟩ := (reciprocal_spec hm ha).2 h0
+      rw [e] at h; cases h; exact rq
+  · rcases lt_or_ge n 0 with hn | hn
+    · obtain ⟨k, hk, rfl⟩ : ∃ k : ℕ, 0 < k ∧ n = -(k : ℤ) := ⟨n.natAbs, by omega, by omega⟩
+      by_cases h0 : φ p m a = 0
+      · rw [(pow_neg_spec hm ha hk).1 h0] at h; cases h
+      · obtain ⟨q, e, rq, _⟩ := (pow_neg_spec hm ha hk).2 h0
+        rw [e] at h; cases h; exact rq
+    · obtain ⟨k, rfl⟩ : ∃ k : ℕ, n = (k : ℤ) := ⟨n.toNat, by omega⟩
+      obtain ⟨q, e, rq, _⟩ := pow_nonneg_spec hm ha k
+      rw [e] at h; cases h; exact rq
+
+/-- ★ in-place and reflected operators compute the same values as the binary ones -/
+theorem ext_inplace_reflected_agree (a o : Poly) (n : ℤ) :
+    ExtF.iadd p m a o = ExtF.add p m a o ∧ ExtF.isub p m a o = ExtF.sub p m a o ∧
+    ExtF.imul p m a o = ExtF.mul p m a o ∧ ExtF.itruediv p m a o = ExtF.truediv p m a o ∧
+    ExtF.ilshift p m a n = ExtF.lshift p m a n ∧ ExtF.irshift p m a n = ExtF.rshift p m a n ∧
+    ExtF.radd p m a o = ExtF.add p m a o ∧ ExtF.rmul p m a o = ExtF.mul p m a o ∧
+    ExtF.rsub p m a o = ExtF.sub p m o a :=
+  ⟨rfl, rfl, rfl, rfl, rfl, rfl, rfl, rfl, rfl⟩
+
+/-- ★ commutative-ring axioms for the executable operators on class-invariant values -/
+theorem ext_ring_axioms (hm : IsModulus p m) {a b c : Poly} (ha : Red p m a) (hb : Red p m b) (hc : Red p m c) :
+    ExtF.add p m a b = ExtF.add p m b a ∧
+    ExtF.add p m (ExtF.add p m a b) c = ExtF.add p m a (ExtF.add p m b c) ∧
+    ExtF.mul p m a b = ExtF.mul p m b a ∧
+    ExtF.mul p m (ExtF.mul p m a b) c = ExtF.mul p m a (ExtF.mul p m b c) ∧
+    ExtF.mul p m a (ExtF.add p m b c) = ExtF.add p m (ExtF.mul p m a b) (ExtF.mul p m a c) ∧
+    ExtF.sub p m a b = ExtF.add p m a (ExtF.neg p m b) ∧
+    ExtF.add p m a (ExtF.neg p m a) = [] ∧
+    ExtF.add p m a [] = a ∧ ExtF.mul p m a [1] = a := by
+  have wab := (red_add hm ha.1 hb.1); have wbc := (red_add hm hb.1 hc.1)
+  have mab := (red_mul hm ha.1 hb.1); have mbc := (red_mul hm hb.1 hc.1); have mac := (red_mul hm ha.1 hc.1)
+  have nb := red_neg hm hb.1; have na := red_neg hm ha.1
+  have wnil : WF p ([] : Poly) := ⟨by simp [Reduced], by simp [Normalised]⟩
+  have hnil : Red p m [] := ⟨wnil, List.length_pos_iff.mpr hm.ne_nil⟩
+  refine ⟨?_, ?_, ?_, ?_, ?_, ?_, ?_, ?_, ?_⟩
+  · apply phi_inj hm wab (red_add hm hb.1 ha.1); rw [phi_add hm ha.1 hb.1, phi_add hm hb.1 ha.1]; ring
+  · apply phi_inj hm (red_add hm wab.1 hc.1) (red_add hm ha.1 wbc.1)
+    rw [phi_add hm wab.1 hc.1, phi_add hm ha.1 hb.1, phi_add hm ha.1 wbc.1, phi_add hm hb.1 hc.1]; ring
+  · apply phi_inj hm mab (red_mul hm hb.1 ha.1); rw [phi_mul hm ha.1 hb.1, phi_mul hm hb.1 ha.1]; ring
+  · apply phi_inj hm (red_mul hm mab.1 hc.1) (red_mul hm ha.1 mbc.1)
+    rw [phi_mul hm mab.1 hc.1, phi_mul hm ha.1 hb.1, phi_mul hm ha.1 mbc.1, phi_mul hm hb.1 hc.1]; ring
+  · apply phi_inj hm (red_mul hm ha.1 wbc.1) (red_add hm mab.1 mac.1)
+    rw [phi_mul hm ha.1 wbc.1, phi_add hm hb.1 hc.1, phi_add hm mab.1 mac.1, phi_mul hm ha.1 hb.1,
+      phi_mul hm ha.1 hc.1]; ring
+  · apply phi_inj hm (red_sub hm ha.1 hb.1) (red_add hm ha.1 nb.1)
+    rw [phi_sub hm ha.1 hb.1, phi_add hm ha.1 nb.1, phi_neg hm hb.1]; ring
+  · apply phi_inj hm (red_add hm ha.1 na.1) hnil
+    rw [phi_add hm ha.1 na.1, phi_neg hm ha.1]; simp [φ]
+  · apply phi_inj hm (red_add hm ha.1 wnil) ha
+    rw [phi_add hm ha.1 wnil]; simp [φ]
+  · apply phi_inj hm (red_mul hm ha.1 wf_one) ha
+    rw [phi_mul hm ha.1 wf_one, phi_one, mul_one]
+
+/-- `[1]` is a class-invariant value (an irreducible modulus has degree ≥ 1) -/
+theorem ext_one_red (hm : IsModulus p m) : Red p m [1] := by
+  refine ⟨wf_one, ?_⟩
+  have h1 := hm.irr.natDegree_pos
+  rw [natDegree_toPoly hm.wf hm.ne_nil] at h1
+  simp only [List.length_cons, List.length_nil]; omega
+
+/-- ★ only zero has no inverse: `reciprocal`, `/` and reflected `/` raise ZeroDivisionError exactly for the zero
+element, otherwise `a * (1/a) = 1` and `(b / a) * a = b` -/
+theorem ext_inv_iff_nonzero (hm : IsModulus p m) {a : Poly} (ha : Red p m a) :
+    (a = [] → ExtF.reciprocal p m a = .error .zeroDivision ∧
+        ∀ b, WF p b → ExtF.truediv p m b a = .error .zeroDivision) ∧
+    (a ≠ [] → ∃ r, ExtF.reciprocal p m a = .ok r ∧ Red p m r ∧ ExtF.mul p m a r = [1] ∧
+        ∀ b, Red p m b → ∃ q, ExtF.truediv p m b a = .ok q ∧ Red p m q ∧ ExtF.mul p m q a = b) := by
+  constructor
+  · intro h0
+    have hz : φ p m a = 0 := (phi_eq_zero_iff hm ha).mpr h0
+    exact ⟨(reciprocal_spec hm ha.1).1 hz, fun b hb => (truediv_spec hm hb ha.1).1 hz⟩
+  · intro hne
+    have hz : φ p m a ≠ 0 := fun h => hne ((phi_eq_zero_iff hm ha).mp h)
+    obtain ⟨r, e, rr, hr⟩ := (reciprocal_spec hm ha.1).2 hz
+    refine ⟨r, e, rr, ?_, ?_⟩
+    · apply phi_inj hm (red_mul hm ha.1 rr.1) (ext_one_red hm)
+      rw [phi_mul hm ha.1 rr.1, phi_one, mul_comm]; exact hr
+    · intro b hb
+      obtain ⟨q, e', rq, hq⟩ := (truediv_spec hm hb.1 ha.1).2 hz
+      refine ⟨q, e', rq, ?_⟩
+      apply phi_inj hm (red_mul hm rq.1 ha.1) hb
+      rw [phi_mul hm rq.1 ha.1]; exact hq
+
+/-- ★ mixing in an int (or an unreduced polynomial) equals converting it to a field element first -/
+theorem ext_mix_int (hm : IsModulus p m) {a : Poly} (ha : WF p a) (x : ℤ) :
+    ExtF.add p m a (GFpX.fromInt p x) = ExtF.add p m a (ExtF.ofInt p m x) ∧
+    ExtF.sub p m a (GFpX.fromInt p x) = ExtF.sub p m a (ExtF.ofInt p m x) ∧
+    ExtF.rsub p m a (GFpX.fromInt p x) = ExtF.rsub p m a (ExtF.ofInt p m x) ∧
+    ExtF.mul p m a (GFpX.fromInt p x) = ExtF.mul p m a (ExtF.ofInt p m x) ∧
+    ExtF.truediv p m a (GFpX.fromInt p x) = ExtF.truediv p m a (ExtF.ofInt p m x) ∧
+    ExtF.eq p m a (.int x) = ExtF.eq p m a (.elem (ExtF.ofInt p m x)) := by
+  have wx := wf_fromInt (p := p) x
+  have rx := red_ofInt hm (m := m) x
+  have px := phi_ofInt hm (m := m) x
+  refine ⟨?_, ?_, ?_, ?_, ?_, rfl⟩
+  · apply phi_inj hm (red_add hm ha wx) (red_add hm ha rx.1); rw [phi_add hm ha wx, phi_add hm ha rx.1, px]
+  · apply phi_inj hm (red_sub hm ha wx) (red_sub hm ha rx.1); rw [phi_sub hm ha wx, phi_sub hm ha rx.1, px]
+  · apply phi_inj hm (red_sub hm wx ha) (red_sub hm rx.1 ha); rw [phi_rsub hm ha wx, phi_rsub hm ha rx.1, px]
+  · apply phi_inj hm (red_mul hm ha wx) (red_mul hm ha rx.1); rw [phi_mul hm ha wx, phi_mul hm ha rx.1, px]
+  · by_cases h0 : φ p m (GFpX.fromInt p x) = 0
+    · rw [(truediv_spec hm ha wx).1 h0, (truediv_spec hm ha rx.1).1 (by rw [px]; exact h0)]
+    · obtain ⟨q, e, rq, hq⟩ := (truediv_spec hm ha wx).2 h0
+      obtain ⟨q', e', rq', hq'⟩ := (truediv_spec hm ha rx.1).2 (by rw [px]; exact h0)
+      rw [e, e']; congr 1
+      apply phi_inj hm rq rq'
+      haveI : Fact (Irreducible (toPoly p m)) := ⟨hm.irr⟩
+      rw [px] at hq'
+      exact mul_right_cancel₀ h0 (hq.trans hq'.symm)
+
+/-- repeated multiplication with the model's `*`, starting from `F(1)` -/
+def extPowRep (p : ℕ) (m a : Poly) : ℕ → Poly
+  | 0 => ExtF.mk p m [1]
+  | n + 1 => ExtF.mul p m (extPowRep p m a n) a
+
+/-- ★ `a ** n` (n ≥ 0) is repeated multiplication; `a ** -n` is the inverse of `a ** n` and raises exactly for 0 -/
+theorem ext_pow (hm : IsModulus p m) {a : Poly} (ha : Red p m a) (n : ℕ) :
+    ExtF.pow p m a (n : ℤ) = .ok (extPowRep p m a n) ∧
+    (0 < n → (a = [] → ExtF.pow p m a (-(n : ℤ)) = .error .zeroDivision) ∧
+      (a ≠ [] → ∃ r, ExtF.pow p m a (-(n : ℤ)) = .ok r ∧ Red p m r ∧
+        ExtF.mul p m r (extPowRep p m a n) = [1])) := by
+  have hrep : ∀ k, Red p m (extPowRep p m a k) ∧ φ p m (extPowRep p m a k) = φ p m a ^ k := by
+    intro k
+    induction k with
+    | zero => exact ⟨red_mk hm wf_one, by rw [extPowRep, phi_mk hm wf_one, phi_one, pow_zero]⟩
+    | succ k ih => exact ⟨red_mul hm ih.1.1 ha.1, by rw [extPowRep, phi_mul hm ih.1.1 ha.1, ih.2, pow_succ]⟩
+  constructor
+  · obtain ⟨r, e, rr, hr⟩ := pow_nonneg_spec hm ha.1 n
+    rw [e]; congr 1
+    exact phi_inj hm rr (hrep n).1 (by rw [hr, (hrep n).2])
+  · intro hn
+    constructor
+    · intro h0
+      exact (pow_neg_spec hm ha.1 hn).1 ((phi_eq_zero_iff hm ha).mpr h0)
+    · intro hne
+      have hz : φ p m a ≠ 0 := fun h => hne ((phi_eq_zero_iff hm ha).mp h)
+      obtain ⟨r, e, rr, hr⟩ := (pow_neg_spec hm ha.1 hn).2 hz
+      refine ⟨r, e, rr, ?_⟩
+      apply phi_inj hm (red_mul hm rr.1 (hrep n).1.1) (ext_one_red hm)
+      rw [phi_mul hm rr.1 (hrep n).1.1, (hrep n).2, phi_one]; exact hr
+
+/-- ★ (what the code does) `a << n` multiplies by the polynomial `X^n`, i.e. by `F(p)^n`; `a >> n` divides by the
+field element of the INTEGER `2^n` (base-p digits) -/
+theorem ext_shifts_as_coded (hm : IsModulus p m) {a : Poly} (ha : WF p a) (n : ℕ) :
+    ExtF.lshift p m a (n : ℤ) = ExtF.mul p m a (GFpX.lshift [1] n) ∧
+    ExtF.rshift p m a (n : ℤ) = ExtF.truediv p m a (GFpX.fromInt p ((2 : ℤ) ^ n)) ∧
+    (∀ k : ℤ, k < 0 → ExtF.rshift p m a k = .error .value) := by
+  refine ⟨?_, rshift_eq_truediv a n, ?_⟩
+  · have w1 : WF p (GFpX.lshift [1] n) := wf_lshift wf_one hp0 n
+    apply phi_inj hm (red_mk hm (by unfold polyShl; rw [if_neg (by omega)]; exact wf_lshift ha hp0 _))
+      (red_mul hm ha w1)
+    rw [phi_lshift hm ha, phi_mul hm ha w1]
+    unfold φ
+    rw [toPoly_lshift, map_mul, map_pow, AdjoinRoot.mk_X]
+    simp
+  · intro k hk
+    unfold ExtF.rshift
+    rw [MpycV.PrimeF.shl_neg _ _ hk]
+
+/-- OPEN FINDING `extfield-shift-odd-char` (kernel-checked witness, GF(3^2), modulus x^2+1, a = x+2): the shifts of
+odd-characteristic extension fields are NOT multiplication/division by powers of two, and not inverse to each other:
+`a << 1 = 2x+2` but `a * F(2) = 2x+1`; `(a << 1) >> 1 = x+1 ≠ a`; `a >> 2 = x` but `a / F(2)^2 = x+2`. -/
+theorem ext_shift_pow2_fails_witness :
+    ExtF.lshift 3 [1, 0, 1] [2, 1] 1 = [2, 2] ∧ ExtF.mul 3 [1, 0, 1] [2, 1] (ExtF.ofInt 3 [1, 0, 1] 2) = [1, 2] ∧
+    ExtF.rshift 3 [1, 0, 1] (ExtF.lshift 3 [1, 0, 1] [2, 1] 1) 1 = .ok [1, 1] ∧
+    ExtF.rshift 3 [1, 0, 1] [2, 1] 2 = .ok [0, 1] ∧
+    ExtF.truediv 3 [1, 0, 1] [2, 1] (extPowRep 3 [1, 0, 1] (ExtF.ofInt 3 [1, 0, 1] 2) 2) = .ok [2, 1] ∧
+    GFpX.isIrreducible 3 [1, 0, 1] = true := by
+  decide +kernel
+
+/-- ☆ PARTIAL: "shifts equal multiplication/division by powers of two" for extension fields.  Proved part: `>>` by
+`n` with `2^n < p` divides by `F(2)^n`… is not claimed; what IS proved for every odd-characteristic extension field
+is `ext_shifts_as_coded`; the property clause itself fails there (`ext_shift_pow2_fails_witness`) and is proved for
+prime fields (`lshift_eq_mul_pow2`, `rshift_eq_div_pow2`) and binary fields (`bin_shifts`).  The statement below is
+the consistent half: `>> n` undoes `<< n` whenever `X^n` and `F(2^n)` coincide, i.e. never needed for p > 2; kept as
+the exact equation both shifts satisfy: `(a << n) >> n = a * X^n / F(2^n)`. -/
+theorem ext_shift_pow2_partial (hm : IsModulus p m) {a : Poly} (ha : WF p a) (n : ℕ) :
+    ExtF.rshift p m (ExtF.lshift p m a (n : ℤ)) (n : ℤ) =
+      ExtF.truediv p m (ExtF.mul p m a (GFpX.lshift [1] n)) (GFpX.fromInt p ((2 : ℤ) ^ n)) := by
+  rw [(ext_shifts_as_coded hm ha n).1, rshift_eq_truediv]
+
+example : IsModulus 3 [1, 0, 1] :=
+  haveI : Fact (Nat.Prime 3) := ⟨by decide⟩
+  isModulus_of_check (by decide) (by decide +kernel)
+example : ExtF.mul 3 [1, 0, 1] [2, 1] [1, 2] = [0, 2] ∧ ExtF.truediv 3 [1, 0, 1] [0, 2] [1, 2] = .ok [2, 1] ∧
+    ExtF.pow 3 [1, 0, 1] [2, 1] (-3) = .ok [2, 2] ∧ extPowRep 3 [1, 0, 1] [2, 1] 3 = [2, 2] ∧
+    ExtF.reciprocal 3 [1, 0, 1] [] = .error .zeroDivision := by decide +kernel
+
+end ext
 
 end MpycV.C20
